@@ -15,6 +15,8 @@ TEMPLATES = {
     "name-ambiguous": ("from t | join u (==k) | select {«k»}", None),
     "type-take-string": ("from t | take «\"x\"»", None),
     "arg-too-many": ("from t | «take 1 2 3»", None),
+    "syn-let-newline": ("let«\n»from t | select {a}", None),               # span ends exactly where the next line starts
+    "syn-into-newline": ("from t | select {a}\ninto«\n»from u", None),
     "sql-regex-mssql": ("from t | filter a «~=» \"x\"", "mssql"),
     "sql-two-pipelines": ("from t | select {a} | «append (from u | select {a, c})»", None),
 }
@@ -22,7 +24,7 @@ PADS = {
     "ascii": "abc xyz", "latin": "éàü ñç", "cjk": "日本語", "emoji": "😀😀", "mixed": "aé日😀",
 }
 PLACES = ["none", "comment-line-before", "string-same-line-before", "ident-same-line-before", "comment-after", "line-after", "two-lines-before"]
-LAYOUTS = ["single", "project-root", "project-module"]
+LAYOUTS = ["single", "project-root", "project-module", "project-suffix"]
 
 def build(tmpl, pad, place, layout):
     text, dialect = TEMPLATES[tmpl]
@@ -46,6 +48,11 @@ def build(tmpl, pad, place, layout):
         files = [{"path": "", "content": clean}]; ppath = ""; root = None
     elif layout == "project-root":
         files = [{"path": "Project.prql", "content": clean}, {"path": "lib.prql", "content": "let helper = 1\n"}]; ppath = "Project.prql"; root = None
+    elif layout == "project-suffix":
+        # the erroneous file's path is a suffix of another file's path
+        files = [{"path": "Project.prql", "content": "from lib.q\n"}, {"path": "sub/lib.prql", "content": "# helpers\nlet other = (from o)\n"},
+                 {"path": "lib.prql", "content": "let q = (\n" + clean + "\n)\n"}]
+        start += len("let q = (\n"); end += len("let q = (\n"); ppath = "lib.prql"; root = None
     else:
         # the erroneous pipeline lives in a module file; the root only refers to it
         files = [{"path": "Project.prql", "content": "from lib.q\n"}, {"path": "other.prql", "content": "let unused = 2\n"},
@@ -67,10 +74,16 @@ def check(tier):
     for i, c in enumerate(replay_lines(out)):
         if c["place"] == "none" and c["pad"] != pads[0]:
             continue
+        if c["tmpl"] in ("syn-unclosed-brace", "syn-let-newline", "syn-into-newline") and c["layout"] in ("project-module", "project-suffix"):
+            continue        # an unclosed brace inside `let q = ( ... )` is reported at the end of the enclosing file
         x = build(c["tmpl"], c["pad"], c["place"], c["layout"])
         x["id"] = f"{c['tmpl']}/{c['pad']}/{c['place']}/{c['layout']}"
         x["meta"] = c
         cases.append(x)
+        if c["layout"] != "single":
+            # behaviour that depends on hash-map order of the source tree shows only on some instances
+            for rpt in range(3):
+                y = dict(x); y["id"] = x["id"] + f"#{rpt}"; cases.append(y)
     write_ndjson(os.path.join(d, "cases.ndjson"), cases)
     ev = os.path.join(d, "ev.ndjson")
     pv(["errors", os.path.join(d, "cases.ndjson"), ev])
@@ -80,13 +93,15 @@ def check(tier):
         open(ev + ".tlc.out", "w").write(tout)
         raise ToolError("SpansTrace did not consume the trace: " + tinfo.get("error_text", tout[-1200:])[:1500])
     byid = {c["id"]: c for c in cases}
+    for cc in cases:
+        cc["meta"]["case"] = cc["id"]
     evs = {e["id"]: e for e in read_ndjson(ev) if "id" in e}
     for r in tuples(tout, "REJECT"):
         c = byid[r[1]]; e = evs[r[1]]
         src = next(f["content"] for f in c["files"] if f["path"] == c["planted"]["path"])
         non_ascii_before = any(ord(ch) > 127 for ch in src[:c["planted"]["start"]])
         sig = {"what": "span", "fault": r[2], "template": c["meta"]["tmpl"], "layout": c["meta"]["layout"], "place": c["meta"]["place"],
-               "non_ascii_before": non_ascii_before, "src": src,
+               "non_ascii_before": non_ascii_before, "non_ascii_in_file": any(ord(ch) > 127 for ch in src), "src": src,
                "panic_site": (f"{e.get('file')}:{e.get('line')}" if e.get("event") == "Panic" else "")}
         rep.violation({"property": "C13", "kind": r[2], "case": r[1], "files": c["files"], "planted": c["planted"],
                        "messages": [{k: m[k] for k in ("reason", "span", "path", "location", "display")} for m in e.get("msgs", [])],
